@@ -33,6 +33,12 @@ pub(crate) enum DiagnosticData {
         original_definition: Option<SourceSpan>,
         redefined_definition: Option<SourceSpan>,
     },
+    #[error("the input object field `{name}` is provided multiple times")]
+    UniqueInputField {
+        name: Name,
+        original_definition: Option<SourceSpan>,
+        redefined_definition: Option<SourceSpan>,
+    },
     #[error("the argument `{name}` is not supported by `{coordinate}`")]
     UndefinedArgument {
         name: Name,
@@ -411,6 +417,23 @@ impl DiagnosticData {
                 );
                 report.with_help(format_args!(
                     "`{name}` must only be defined once in this argument list or input object definition."
+                ));
+            }
+            DiagnosticData::UniqueInputField {
+                name,
+                original_definition,
+                redefined_definition,
+            } => {
+                report.with_label_opt(
+                    *original_definition,
+                    format_args!("previously provided `{name}` here"),
+                );
+                report.with_label_opt(
+                    *redefined_definition,
+                    format_args!("`{name}` provided again here"),
+                );
+                report.with_help(format_args!(
+                    "`{name}` must only be provided once in this input object."
                 ));
             }
             DiagnosticData::UndefinedArgument {
